@@ -38,7 +38,26 @@ def resolve(name: str):
     return absolute, escapes, stack
 
 
+# names that cannot be stored at all: the format's names are UTF-16, a lone surrogate (what Python makes of a file name that
+# is not valid UTF-8) has no encoding.  Such a name has to be refused when it is offered, not when the header is written
+UNSTORABLE = ["a\udc80b", "\ud800", "d/\udfffx", "caf\udce9.txt"]
+
+
+def _storable(name: str) -> bool:
+    try:
+        name.encode("utf-16-le")
+        return True
+    except UnicodeEncodeError:
+        return False
+
+
 def expected_reject(name: str) -> bool:
+    if not _storable(name):
+        return True
+    return _expected_reject_lexical(name)
+
+
+def _expected_reject_lexical(name: str) -> bool:
     a, e, _ = resolve(name)
     return a or e
 
@@ -274,7 +293,7 @@ def main(tier="quick", seed=0, only=None):
     maxcomp = 6
     wcomp = 4 if tier == "quick" else 5
     tasks = [("lexical", (i, maxcomp)) for i in range(len(ALPHABET))]
-    wnames = list(all_names(wcomp)) + list(probe_names(wcomp))
+    wnames = list(all_names(wcomp)) + list(probe_names(wcomp)) + UNSTORABLE
     pn = list(probe_names(5 if tier == "quick" else 6))
     tasks += [("probe", pn[i : i + 2000]) for i in range(0, len(pn), 2000)]
     step = 400
@@ -289,7 +308,7 @@ def main(tier="quick", seed=0, only=None):
         rule=(
             f"every name of 1..{maxcomp} components over {ALPHABET} x prefix {PREFIXES} x suffix {SUFFIXES} through check_archive_path, plus every name of up to 5 (thorough 6) components over {PROBE_ALPHABET} that mentions a component of the gate's internal probe directory; "
             f"every such name of <= {wcomp} components through a real writestr and a real writef session (one member before, one after, "
-            "close, reopen, list, extract); every absolute/relative/redundant spelling of every file and directory of a scratch tree "
+            "close, reopen, list, extract), and 4 names with a lone surrogate (unstorable: must be refused with ValueError at the call); every absolute/relative/redundant spelling of every file and directory of a scratch tree "
             "through write and writeall (str and pathlib.Path, arcname None). Verdicts compared with an independent lexical definition "
             "(split on '/', resolve '.'/'..' against a virtual root; reject iff absolute or depth < 0). Distinct by name/spelling; "
             "non-trivial = reached the verdict comparison (for sources: at least one member stored)."
